@@ -64,14 +64,17 @@ End RootHash.
 
 (* the representation hypotheses are satisfiable: one account with one storage slot *)
 Local Arguments bytes_eqb : simpl never.
-Lemma repr_example (H : bytes -> bytes) :
+Definition repr_example_stmt (H : bytes -> bytes) : Prop :=
   let akey := fun a : N => [a] in let skey := fun k : N => [k] in
   let leaf_enc := fun (n h : N) (r : bytes) => n :: h :: r in
   let opsS := [T.OUpdate [2%N] [5%N]] in
   let t : gmap N acct := {[ 1%N := Acct 0 0 {[ 2%N := [5%N] ]} ]} in
   repr_store skey opsS {[ 2%N := [5%N] ]} /\
   repr_state H akey skey leaf_enc [T.OUpdate [1%N] (leaf_enc 0%N 0%N (trie_root H opsS))] t.
+
+Lemma repr_example (H : bytes -> bytes) : repr_example_stmt H.
 Proof.
+  unfold repr_example_stmt.
   cbv zeta.
   assert (HS : repr_store (fun k : N => [k]) [T.OUpdate [2%N] [5%N]] {[ 2%N := [5%N] ]}).
   { split; [repeat constructor; cbv; reflexivity|]. intros key _.
